@@ -289,7 +289,8 @@ PROPS = {
     "C19": {
         "module": "HctlProofs.Props.C19",
         "theorems": ["Hctl.C19.explode_semantics", "Hctl.C19.flatten_semantics", "Hctl.C19.implicit_semantics",
-                     "Hctl.C19.explode_names_injective", "Hctl.C19.every_instantiation_induced", "Hctl.C19.flatten_family",
+                     "Hctl.C19.explode_names_injective", "Hctl.C19.fresh_names_injective", "Hctl.C19.every_instantiation_induced",
+                     "Hctl.C19.flatten_family", "Hctl.C19.implicit_family", "Hctl.C19.generated_not_variable",
                      "Hctl.C19.flatten_specified", "Hctl.C19.no_regulators_untouched"],
         "ks": ["k10"],
         "spec_tied": [],
@@ -298,7 +299,7 @@ PROPS = {
         "rule": "K10: 8 hand-written + random aeon networks (2-3 variables; implicit functions of arity 0-3; explicit f/2, g/1, k/0, nested "
                 "and shared); the binary's stdout re-loaded as bnet; truth table of every target over (variables, fresh constants) vs "
                 "the model; oracle: family over the constants = family of instantiations of the input",
-        "assumptions": ["no existing variable or parameter is named like a generated constant (`<name>_<bits>`)",
+        "assumptions": ["zero-arity parameters are not named like network variables (hypothesis SymsOK; lib-param-bn refuses such networks)",
                         "aeon/bnet parsing and printing of lib-param-bn (modelled, not verified)"],
     },
     "C09": {
